@@ -54,17 +54,23 @@ var quickDFS = []config{
 	{ninit: 3, progs: [][]string{p("w", "u11"), p("w", "z")}},
 	// three-party windows: pusher A stalled between link and publication, pusher B
 	// spinning / overtaking, popper C, Len observer
-	{ninit: 0, progs: [][]string{p("u11"), p("u21"), p("o"), p("l")}, bound: 2, max: 2500},
-	{ninit: 1, progs: [][]string{p("u11"), p("u21"), p("o", "l")}, max: 2500},
-	{ninit: 0, progs: [][]string{p("u11"), p("u21"), p("w"), p("l")}, bound: 2, max: 2500},
+	{ninit: 0, progs: [][]string{p("u11"), p("u21"), p("o"), p("l")}, bound: 2, max: 1200},
+	{ninit: 1, progs: [][]string{p("u11"), p("u21"), p("o", "l")}, max: 1200},
+	{ninit: 0, progs: [][]string{p("u11"), p("u21"), p("w"), p("l")}, bound: 2, max: 1200},
+	// timed PopWait (`t<k>`: deadline observed on the k-th tick) driven by the scheduler
+	// through the time shim: the push lands before / on / after the deadline tick
+	{ninit: 0, progs: [][]string{p("t1"), p("u11")}},
+	{ninit: 0, progs: [][]string{p("t2"), p("u11", "u12")}, max: 1200},
+	{ninit: 1, progs: [][]string{p("t1", "o"), p("o"), p("u11")}, max: 1200},
+	{ninit: 0, progs: [][]string{p("t1", "l"), p("u11"), p("t2")}, max: 1200},
 	// hidden input GOMAXPROCS == 1 (code that takes a single-P shortcut still has every
 	// interleaving of its atomic steps: goroutines are preempted on one P too)
 	{ninit: 2, progs: [][]string{p("o"), p("o")}, uni: true},
-	{ninit: 2, progs: [][]string{p("o", "o"), p("o", "l")}, uni: true, max: 2500},
-	{ninit: 1, progs: [][]string{p("u11", "o"), p("o", "u21")}, uni: true, max: 2500},
+	{ninit: 2, progs: [][]string{p("o", "o"), p("o", "l")}, uni: true, max: 1200},
+	{ninit: 1, progs: [][]string{p("u11", "o"), p("o", "u21")}, uni: true, max: 1200},
 	// after a failure: Pop / PopWait(0) returning false (empty, lost CAS) followed by
 	// ordinary calls in the same thread
-	{ninit: 0, progs: [][]string{p("o", "u11", "o"), p("z", "u21", "l")}, max: 2500},
+	{ninit: 0, progs: [][]string{p("o", "u11", "o"), p("z", "u21", "l")}, max: 1200},
 }
 
 var thoroughDFS = []config{
@@ -103,7 +109,7 @@ func feasible(ninit int, progs [][]string) bool {
 			case c == "w":
 				blocked = true
 				demand++
-			case c == "o" || c == "z":
+			case c == "o" || c == "z" || (len(c) > 1 && c[0] == 't'):
 				demand++
 			case strings.HasPrefix(c, "u") && !blocked:
 				supply++
@@ -175,6 +181,23 @@ func corpus() []core.Case {
 		{Tag: "corpus", Lines: []string{"@ C11 list 2 T w T o T z", "step 0", "step 0", "step 0", "step 1", "step 1", "step 1", "step 1", "step 1",
 			"step 0", "step 0", "step 0", "step 0", "step 0", "step 0", "step 0", "step 2", "step 2", "final"}},
 	}
+	cases = append(cases,
+		// deadline-tick scenario of seed C11-C: PopWait(d>0) finds the list empty, the push is
+		// published before the tick that observes the deadline: that tick's Pop succeeds and the
+		// value must be returned with true (not reported as a timeout)
+		core.Case{Tag: "corpus-timed", Lines: []string{"@ C11 list 0 T t1 T u7", "step 0", "step 0", "step 1", "step 1", "step 1", "step 1", "step 1",
+			"step 0", "step 0", "step 0", "step 0", "step 0", "final"}},
+		// … of seed C11-E: two values are pushed during the last poll interval; the deadline
+		// tick takes the FRONT one; a following Pop gets the second
+		core.Case{Tag: "corpus-timed", Lines: []string{"@ C11 list 0 T t1 o T u7 u8", "step 0", "step 0",
+			"step 1", "step 1", "step 1", "step 1", "step 1", "step 1", "step 1", "step 1", "step 1", "step 1",
+			"step 0", "step 0", "step 0", "step 0", "step 0", "step 0", "step 0", "step 0", "step 0", "step 0", "final"}},
+		// the deadline tick finds the node linked but not yet published: times out, value stays
+		core.Case{Tag: "corpus-timed", Lines: []string{"@ C11 list 0 T t1 T u7", "step 0", "step 0", "step 1", "step 1", "step 1", "step 1",
+			"step 0", "step 0", "step 1", "final"}},
+		// expiry on the 3rd tick with nothing ever pushed, then ordinary calls (class 3)
+		core.Case{Tag: "corpus-timed", Lines: []string{"@ C11 list 0 T t3 u5 o l", "drain", "final"}},
+	)
 	for _, k := range []int{30, 300, 765, 771, 774, 780, 900, 1600} {
 		cases = append(cases, starvedPusher(k, 3), starvedPusher(k, 4))
 	}
@@ -225,7 +248,7 @@ func gen(r *core.Rand, tier string) core.Case {
 		var prog []string
 		n := r.Range(1, maxOps)
 		for k := 0; k < n; k++ {
-			switch r.Pick(45, 28, 12, 8, 7) {
+			switch r.Pick(45, 26, 11, 7, 6, 5) {
 			case 0:
 				prog = append(prog, fmt.Sprintf("u%d", 100*(t+1)+k))
 			case 1:
@@ -234,8 +257,10 @@ func gen(r *core.Rand, tier string) core.Case {
 				prog = append(prog, "l")
 			case 3:
 				prog = append(prog, "w")
-			default:
+			case 4:
 				prog = append(prog, "z")
+			default:
+				prog = append(prog, fmt.Sprintf("t%d", r.Range(1, 3)))
 			}
 		}
 		total += n
